@@ -330,7 +330,11 @@ if ( jcol==BADCOL )
  		    /* Append new fills in panel_lsub[*,jj]. */
 		    j = w_lsub_end[jj - jcol];
 /*#pragma ivdep*/
-		    for (k = xlsub[krep]; k < xlsub_end[krep]; ++k) {
+		    /* Read the supernode's first subscript copy (below its
+		       columns); the copy at xlsub[krep] may be partitioned
+		       concurrently by pxgstrf_pruneL() in another thread. */
+		    for (k = xlsub[xsup[ksupno]] + (krep - xsup[ksupno] + 1);
+			 k < xlsub_end[xsup[ksupno]]; ++k) {
 			ksub = lsub[k];
 			if ( col_marker[ksub] != jj ) {
 			    col_marker[ksub] = jj;
@@ -358,7 +362,11 @@ if ( jcol==BADCOL )
 	    /* Append new fills in panel_lsub[*,jj]. */
 	    j = w_lsub_end[jj - jcol];
 /*#pragma ivdep*/
-	    for (k = xlsub[krep]; k < xlsub_end[krep]; ++k) {
+	    /* Read the supernode's first subscript copy (below its
+	       columns); the copy at xlsub[krep] may be partitioned
+	       concurrently by pxgstrf_pruneL() in another thread. */
+	    for (k = xlsub[xsup[ksupno]] + (krep - xsup[ksupno] + 1);
+		 k < xlsub_end[xsup[ksupno]]; ++k) {
 	        ksub = lsub[k];
 		if ( col_marker[ksub] != jj ) {
 		    col_marker[ksub] = jj;
